@@ -302,3 +302,58 @@ def _len_hint(s):
     if c == "GolayCodeEncoder":
         return 24
     return 16
+
+
+# ------------------------------------------------------------------------------------------------
+# modem catalogue
+# ------------------------------------------------------------------------------------------------
+def modem(name, mod, demod, bps, mod_kw=None, demod_kw=None, memory=None, registry=None, order=None):
+    return dict(name=name, mod=mod, demod=demod, bps=bps, mod_kw=mod_kw or {}, demod_kw=demod_kw if demod_kw is not None else dict(mod_kw or {}),
+                memory=memory, registry=registry, order=order)
+
+
+def modem_specs(max_order=None):
+    out = []
+    out.append(modem("BPSK", "BPSKModulator", "BPSKDemodulator", 1, {}, {}, registry=("bpskmodulator", "bpskdemodulator"), order=2))
+    out.append(modem("BPSK(real)", "BPSKModulator", "BPSKDemodulator", 1, {"complex_output": False}, {}, order=2))
+    for nz in (True, False):
+        out.append(modem(f"QPSK(normalize={nz})", "QPSKModulator", "QPSKDemodulator", 2, {"normalize": nz}, registry=("qpskmodulator", "qpskdemodulator") if nz else None, order=4))
+    for M in tier([4, 8, 16], [4, 8, 16, 32, 64]):
+        for gray in (True, False):
+            out.append(modem(f"PSK{M}(gray={gray})", "PSKModulator", "PSKDemodulator", M.bit_length() - 1, {"order": M, "gray_coding": gray}, order=M,
+                             registry=("pskmodulator", "pskdemodulator") if (M == 8 and gray) else None))
+    for M in tier([4, 16], [4, 16, 64]):
+        for gray in (True, False):
+            for nz in (True, False):
+                out.append(modem(f"QAM{M}(gray={gray},normalize={nz})", "QAMModulator", "QAMDemodulator", M.bit_length() - 1,
+                                 {"order": M, "gray_coding": gray, "normalize": nz}, order=M))
+    if TIER == "thorough":
+        m = modem("QAM256(gray=True,normalize=True)", "QAMModulator", "QAMDemodulator", 8, {"order": 256, "gray_coding": True, "normalize": True}, order=256)
+        m["stretch"] = True
+        out.append(m)
+    for M in tier([2, 4, 8], [2, 4, 8, 16, 32, 64]):
+        for gray in (True, False):
+            for nz in ((True, False) if M <= 8 else (True,)):
+                out.append(modem(f"PAM{M}(gray={gray},normalize={nz})", "PAMModulator", "PAMDemodulator", M.bit_length() - 1,
+                                 {"order": M, "gray_coding": gray, "normalize": nz}, order=M))
+    for M in tier([2, 4, 8], [2, 4, 8, 16]):
+        for gray in (True, False):
+            out.append(modem(f"DPSK{M}(gray={gray})", "DPSKModulator", "DPSKDemodulator", M.bit_length() - 1, {"order": M, "gray_coding": gray}, memory="dpsk", order=M))
+    out.append(modem("DBPSK", "DBPSKModulator", "DBPSKDemodulator", 1, {}, {}, memory="dpsk", registry=("dbpsk", "dbpsk"), order=2))
+    out.append(modem("DQPSK", "DQPSKModulator", "DQPSKDemodulator", 2, {}, {}, memory="dpsk", registry=("dqpsk", "dqpsk"), order=4))
+    for nz in (True, False):
+        out.append(modem(f"OQPSK(normalize={nz})", "OQPSKModulator", "OQPSKDemodulator", 2, {"normalize": nz}, memory="oqpsk", registry=("oqpsk", "oqpsk") if nz else None, order=4))
+    for gray in (True, False):
+        out.append(modem(f"Pi4QPSK(gray_coded={gray})", "Pi4QPSKModulator", "Pi4QPSKDemodulator", 2, {"gray_coded": gray}, {}, memory="pi4", registry=("pi4qpsk", "pi4qpsk") if gray else None, order=4))
+    out.append(modem("Identity", "IdentityModulator", "IdentityDemodulator", 1, {}, {}, registry=("identitymodulator", "identitydemodulator")))
+    if max_order:
+        out = [m for m in out if (m["order"] or 2) <= max_order]
+    return out
+
+
+def build_modem(m, via_registry=False):
+    import kaira.modulations as MM
+    if via_registry and m.get("registry"):
+        from kaira.modulations.registry import ModulationRegistry
+        return ModulationRegistry.create(m["registry"][0], "modulator", **m["mod_kw"]), ModulationRegistry.create(m["registry"][1], "demodulator", **m["demod_kw"])
+    return getattr(MM, m["mod"])(**m["mod_kw"]), getattr(MM, m["demod"])(**m["demod_kw"])
